@@ -353,6 +353,8 @@ func enumMembers(tier string, cfg gen.Config) []member {
 			out = append(out, member{name: "enum " + pos + " " + sp.String(), cfg: cfg, root: place(sp, pos)})
 		}
 		out = append(out, member{name: "enum items " + sp.String(), cfg: cfg, root: place(&fam.Spec{Kind: "array", Items: sp.Clone()}, "required")})
+		// ... of an array that is itself a definition (declared array type)
+		out = append(out, member{name: "enum items of an array definition " + sp.String(), cfg: cfg, root: place(&fam.Spec{Kind: "array", Items: sp.Clone()}, "def-required")})
 	}
 	return out
 }
